@@ -161,6 +161,8 @@ const WORDS: &[&str] = &["the", "quick", "brown", "fox", "jumps", "over", "lazy"
 const LAYOUT_BITS: &[&str] = &["\u{4f60}\u{597d}", "e\u{301}", "\u{1f600}", "supercalifragilisticexpialidocious-unbreakable-word-that-is-long", "\n", "\n\n", "  ", "\t", "- item", "a|b", "[x]", "<y>"];
 const ADV_BITS: &[&str] = &[".SH", "'ne 3", "\\fB", "\\", "\"", "'", "`id`", "$(id)", "${x}", "[", "]", ":", "\n", "\n.", "\n'", "\\n", ".", "..", "-", "--", "%", "\u{e9}", "{", "}", "|", ";", "&", "#", "!", "\\-", "\\&", "(", ")"];
 
+const LINE_ATTACKS: &[&str] = &["\n.so /etc/passwd\n", "\n.SH INJECTED\n", "\n'ne 3\n", "\n.TH X 1\n", "\n\n.br\n", "\n  .RS\n", "\n.\n", "\n'\n"];
+
 pub fn gen_text(rng: &mut Rng, kind: TextKind, tag: &str) -> String {
     let mut s = String::new();
     let n = match rng.below(6) {
@@ -189,7 +191,10 @@ pub fn gen_text(rng: &mut Rng, kind: TextKind, tag: &str) -> String {
                 }
             }
             TextKind::Adversarial => {
-                if rng.chance(1, 3) {
+                if rng.chance(1, 8) {
+                    // a whole later line that would be a roff request / shell statement if emitted verbatim
+                    s.push_str(*rng.pick(LINE_ATTACKS))
+                } else if rng.chance(1, 3) {
                     s.push_str(*rng.pick(ADV_BITS))
                 } else {
                     s.push_str(*rng.pick(WORDS))
